@@ -7,9 +7,18 @@ SymSet = Opaque('SymSet')
 Stmt = Opaque('Stmt', is_assignment=Bool, symbol=Sym, is_ode=Bool, rhs_symbols=SymSet, amounts=SymSet)
 ExprT = Opaque('ExprT')
 
-TRUSTED = ['statements are opaque values with `is_assignment` (isinstance(.., Assignment)) and `symbol`; '
-           'symbol == is an equivalence modelled by z3 equality; iterating a Statements object yields its '
-           'statements in order']
+TRUSTED = ['statements are opaque values with `is_assignment` (isinstance(.., Assignment)), `is_ode` '
+           '(isinstance(.., CompartmentalSystem)), `symbol`, `rhs_symbols`, `amounts`; symbol == is an equivalence '
+           'modelled by z3 equality; iterating a Statements object yields its statements in order; '
+           'Statements(seq) / self._statements / self[a:b] are the sequence itself resp. its slice',
+           'ASSUMED constructor law: Assignment(symbol, expression) is an assignment of `symbol`; Expr(x) of an '
+           'expression is x',
+           'LIBRARY MODEL list_reverseiterator: reversed(lst) yields the CURRENT lst[n0-1-k] at step k (n0 = length '
+           'when the iterator was created); staying inside the list is a generated obligation',
+           'LIBRARY MODEL lazy combinators: next(map(f, filter(g, it)), d) is f of the first item of `it` satisfying g, '
+           'or d when there is none',
+           'symbol sets (rhs_symbols, amounts) are abstract: `in` and isdisjoint are uninterpreted predicates, '
+           'set(x) of such a set is the set; networkx DiGraph is modelled by its edge set (add_edge only)']
 
 
 def _symbolic():
